@@ -100,15 +100,6 @@ theorem finSweep_noRun (g : G) (perm : List Nat) (hc : CInv g.core) (ht : TInv g
       · simp [G.isDone, G.statusOf, hf, hd]
     exact deliverCancels_noRun g _ ht m.id (mem_orderBy perm _ _ hrem) ⟨m, hm, rfl⟩
 
-theorem joinerPop_nil {g : G} (j : Joiner) (hd : g.doneq = []) :
-    g.joinerPop j = (setJ g { j with phase := .fin, hasPermit := false }, []) := by
-  unfold G.joinerPop; rw [hd]
-
-theorem joinerPop_cons {g : G} (j : Joiner) {t : Nat} {rest : List Nat} (hd : g.doneq = t :: rest) :
-    g.joinerPop j = (setJ (g.popT t rest)
-      { j with phase := if g.stopAfter t rest then .fin else .next, hasPermit := false }, []) := by
-  unfold G.joinerPop; rw [hd]
-
 /-- where the joiner may be when the run starts: in `cancel_remaining()`, in the `next_done`
 loop, just arrived in the clean-up - or gone by the abandoned exit of F11 -/
 def PreFin (j : Joiner) : Prop :=
